@@ -317,7 +317,7 @@ def actual(items, w2c2, workdir, cc="gcc", cflags=("-O1",), batch=24, w2c2_opts=
             wasm = os.path.join(d, it["modname"] + ".wasm")
             with open(wasm, "wb") as f:
                 f.write(it.get("wasm") or wasm_encode.encode(enc_module(it["module"])))
-            rc, out, err = run([w2c2, *w2c2_opts, wasm, os.path.join(d, it["modname"] + ".c")], timeout=120, cwd=d)
+            rc, out, err = run([w2c2, *(w2c2_opts or ("-m",)), wasm, os.path.join(d, it["modname"] + ".c")], timeout=120, cwd=d)
             if rc != 0:
                 problems.append(("translate", [it["id"]], "rc=%s %s" % (rc, err[-800:])))
             else:
@@ -326,10 +326,16 @@ def actual(items, w2c2, workdir, cc="gcc", cflags=("-O1",), batch=24, w2c2_opts=
             return []
         with open(os.path.join(d, "harness.c"), "w") as f:
             f.write(gen_harness(good, d))
-        srcs = ["harness.c"] + [f for f in sorted(os.listdir(d)) if f.endswith(".c") and f != "harness.c"]
+        srcs = [f for f in sorted(os.listdir(d)) if f.endswith(".c") and f != "harness.c"]
         exe = os.path.join(d, "harness")
-        rc, out, err = run([cc, *cflags, "-w", "-I", os.path.join(REPO, "w2c2"), "-DWASM_THREADS_PTHREADS", *extra_defs,
-                            *srcs, "-o", exe, "-lm", "-lpthread"], timeout=600, cwd=d)
+        inc = ["-I", os.path.join(REPO, "w2c2"), "-DWASM_THREADS_PTHREADS", *extra_defs]
+        # the harness itself (hundreds of setjmp sites) is compiled without optimisation;
+        # the translated modules get the build configuration under test
+        rc, out, err = run([cc, "-O0", "-w", *[f for f in cflags if f.startswith(("-fsanitize", "-std", "-m"))], *inc,
+                            "-c", "harness.c", "-o", "harness.o"], timeout=600, cwd=d)
+        if rc == 0:
+            rc, out, err = run([cc, *cflags, "-w", *inc, *srcs, "harness.o", "-o", exe, "-lm", "-lpthread"],
+                               timeout=600, cwd=d)
         if rc != 0:
             problems.append(("compile", [it["id"] for it in good], err[-3000:]))
             return []
@@ -415,3 +421,68 @@ def clean_prefix(item, exp):
             break
         n = k
     return n
+
+
+# ------------------------------------------------------------------ whole pipeline
+def table_cmp(exp, act):
+    for a, (et, at) in enumerate(zip(exp.get("tables", []), act.get("tables", []))):
+        if not at:
+            continue
+        e01 = [0 if r["inst"] == 0 else 1 for r in et]
+        if e01 != at:
+            return "table %d occupancy: spec %s, code %s" % (a, e01, at)
+    return None
+
+
+def replay(verdict, items, builds, sigfn=None, w2c2_flags=("-O1",), workdir=None, shards=None,
+           tlc_timeout=1500, observe_mems=True):
+    """items -> TLC expected -> for each build config (name, cc, cflags, extra_defs, w2c2_opts)
+    actual -> compare.  Deviations go to verdict with signature sigfn(item, k, reason, build).
+    Returns statistics for the evidence file."""
+    wd = workdir or scratch("replay-")
+    try:
+        import time as _t
+        t0 = _t.time()
+        exp, st = expected(items, wd, shards=shards, timeout=tlc_timeout)
+        st["tlc_wall_s"] = round(_t.time() - t0, 1)
+        # keep only the operations whose outcome the specification defines
+        usable = []
+        skipped = 0
+        for it in items:
+            n = clean_prefix(it, exp)
+            skipped += len(it["script"]) - n
+            if n > 0:
+                usable.append(dict(it, script=it["script"][:n]))
+        from common import build_w2c2
+        w2c2 = build_w2c2(os.path.join(wd, "w2c2bin"), flags=w2c2_flags)
+        compared = 0
+        nontrivial = set()
+        for b in builds:
+            act, problems = actual([dict(i) for i in usable], w2c2, os.path.join(wd, "run-" + b["name"]),
+                                   cc=b.get("cc", "gcc"), cflags=b.get("cflags", ("-O1",)),
+                                   extra_defs=b.get("defs", ()), w2c2_opts=b.get("w2c2_opts", ()))
+            for kind, ids, text in problems:
+                verdict.deviation("%s:%s" % (kind, b["name"]), {"items": ids[:5], "text": text, "build": b["name"]})
+            for it in usable:
+                for k in range(1, len(it["script"]) + 1):
+                    e = exp[(it["id"], k)]
+                    a = act.get((it["id"], k))
+                    if a is None:
+                        continue
+                    compared += 1
+                    nontrivial.add(json.dumps([it["script"][k - 1], e["res"], e["trap"]], sort_keys=True))
+                    why = compare_op(e, a, observe_mems) or table_cmp(e, a)
+                    if why:
+                        sig = sigfn(it, k, why, b, e, a) if sigfn else "%s:%d" % (it["id"], k)
+                        verdict.deviation(sig, {"item": it["id"], "op": it["script"][k - 1], "why": why,
+                                                "build": b["name"]},
+                                          {"module.json": json.dumps(it["module"]),
+                                           "script.json": json.dumps(it["script"]),
+                                           "module.wasm": wasm_encode.encode(enc_module(it["module"]))})
+        st["total_wall_s"] = round(_t.time() - t0, 1)
+        st.update({"ops_compared": compared, "ops_skipped_undefined": skipped,
+                   "distinct_nontrivial": len(nontrivial), "items": len(items)})
+        return st, exp
+    finally:
+        if not workdir:
+            shutil.rmtree(wd, ignore_errors=True)
